@@ -237,7 +237,9 @@ def run_program(rec, seed, target="stream", index=False, version=4712):
     path = None
     if target == "path":
         tmp = tempfile.mkdtemp(prefix="c07-", dir=SCRATCH)
-        path = os.path.join(tmp, "f.tdms")
+        # the index file of <path> is <path>_index, whatever the file is called
+        fnames = ["f.tdms", "RUN_0001.TDMS", "logfile", "capture.tdms.part", "a.b.tdms"]
+        path = os.path.join(tmp, fnames[(zlib.crc32(repr(prog).encode()) // 7 + seed) % len(fnames)])
     writer = None
     nwrites = 0
     nmap = NAME_VARIANTS[(zlib.crc32(repr(prog).encode()) // 17 + seed) % len(NAME_VARIANTS)]
